@@ -1,7 +1,7 @@
 SPECIFICATION Spec
 CONSTANTS
   Names <- NamesT
-  Types = {0, 1, 2, 3, 4, 5, 127}
+  Types = {0, 1, 2, 3, 4, 5, 8, 9, 12, 17, 20, 33, 36, 64, 65, 68, 127}
   Seqs <- SeqsQ
   Expect = {1, 4}
   PeekReadFull = TRUE
